@@ -1,0 +1,9 @@
+//go:build verif
+
+package spiffe
+
+import "k8s.io/utils/clock"
+
+// VerifSetClock injects the clock used by the rotation loop (verification harness only; call
+// before Run).
+func (s *SPIFFE) VerifSetClock(c clock.Clock) { s.clock = c }
